@@ -58,6 +58,8 @@ PROPS = {
  'removed entry leaves the Rock Ridge lookup list': ('C07', 'add_fp(A); rm_file(A): get_record(rr_path=/a) on the editing object still returns the removed record (oracle_live, removed names must not resolve)'),
  'sorts after every entry is refused, not an IndexError': ('C07', 'get_record(rr_path=/b) with only /a present raised IndexError in _find_rr_record'),
  'hybrid MBR points at the boot file of the El Torito Initial Entry': ('C12', 'add_eltorito(A boot); add_eltorito(Z second x86 entry); add_isohybrid: MBR boot-file address = 4 x sector of Z (modes bios2 / efibios2)'),
+ 'placeholder of a relocated directory gets its continuation area tracked': ('C08', 'depth-8 directory with a 190-character Rock Ridge name: placeholder record CE points at block 0 (deep chain x name length sweep)'),
+ 'parse the continuation area before a directory record is classified': ('C01', 'depth-8 directory with a 190-character Rock Ridge name: after reopen the directory is listed as a file and cannot be looked up (reported by the C08 sweep through the roundtrip oracle)'),
  'resolve a relocated Rock Ridge directory through its link': ('C01', 'two depth-8 directories with the same Rock Ridge name in different parents: the second is missing from the Rock Ridge view (reloc-collide chain)'),
 }
 log = subprocess.run(['git', '-C', '/repo', 'log', '--reverse', '--format=%h\t%s', '1c3f835..HEAD'], stdout=subprocess.PIPE).stdout.decode().strip().splitlines()
